@@ -26,6 +26,7 @@ type tfield struct {
 	Num  *int64 `json:"num,omitempty"`
 	Str  string `json:"str_hex,omitempty"`
 	IsS  bool   `json:"is_str,omitempty"`
+	IsB  bool   `json:"is_bool,omitempty"` // the value true (not a number, not a string)
 }
 
 // ctxLit is one literal of a several-literal chunk: an unsigned numeral (hex of its text), negated
@@ -413,6 +414,9 @@ func runCase(w *lib.Writer, c in, kf ...string) {
 			case f.IsS:
 				tb.RawSetString(f.Name, lua.LString(string(unhex(f.Str))))
 				terms = append(terms, fmt.Sprintf("(%s, DStr %s)", fnames[f.Name], lib.CoqBytes(unhex(f.Str))))
+			case f.IsB:
+				tb.RawSetString(f.Name, lua.LTrue)
+				terms = append(terms, fmt.Sprintf("(%s, DBool true)", fnames[f.Name]))
 			case f.Num != nil:
 				tb.RawSetString(f.Name, lua.LNumber(*f.Num))
 				terms = append(terms, fmt.Sprintf("(%s, DNum %s)", fnames[f.Name], lib.CoqZ(*f.Num)))
@@ -420,11 +424,19 @@ func runCase(w *lib.Writer, c in, kf ...string) {
 		}
 		res, errs, pan := callFn(field("os", "time"), tb)
 		v, ok := oneNumber(res)
-		if pan != "" || errs != "" || !ok || v != math.Trunc(v) {
-			w.GoFail(id, "os.time(table) did not return an integer: "+errs+pan)
+		if pan != "" {
+			w.GoFail(id, "Go panic escaped from os.time(table): "+pan)
 		}
-		kc.Observed = int64(v)
-		kc.Coq = fmt.Sprintf("CTime %s %s", lib.CoqList(terms), lib.CoqZ(int64(v)))
+		if errs == "" && (!ok || v != math.Trunc(v)) {
+			w.GoFail(id, "os.time(table) returned something that is not an integer")
+		}
+		raised := errs != "" || pan != ""
+		if raised {
+			kc.Observed = map[string]any{"raised": errs}
+		} else {
+			kc.Observed = int64(v)
+		}
+		kc.Coq = fmt.Sprintf("CTime %s %s", lib.CoqList(terms), lib.CoqOpt(!raised, lib.CoqZ(int64(v))))
 		kc.Nontrivial = true
 	case "ctx":
 		// all literals are constants of ONE function; each numeral is observed as v, 1/v, tostring(v)
